@@ -16,8 +16,14 @@ class World(object):
         self.seen = []
         self.n = 0
 
+    fault = 0
+    SENSE = bytes([0x70, 0, 6, 0, 0, 0, 0, 10, 0, 0, 0, 0, 0x29, 0, 0, 0, 0, 0])
+
     def target(self, cdb, dataout, datain):
         self.seen.append(list(cdb))
+        if self.fault:
+            st, self.fault = self.fault, 0
+            return (2, self.SENSE) if st == 2 else (st, None)
         if cdb[0] == 0x12 and len(datain) >= 5:
             datain[0] = self.cur_byte0
             datain[2] = 6
@@ -75,9 +81,10 @@ def run(chk, replay=None):
     events, meta = [], []
     rng = random.Random(chk.seed)
 
-    def attach(facade, d, devs, tr, fresh):
+    def attach(facade, d, devs, tr, fresh, fault=0):
         w.cur_byte0 = d._verif_byte0
         del w.seen[:]
+        w.fault = fault
         exc = ""
         try:
             if facade[0] is None:
@@ -87,7 +94,8 @@ def run(chk, replay=None):
         except Exception as ex:
             exc = type(ex).__name__
         t = d._verif_byte0 & 0x1F
-        e = {"ev": "attach", "dev": "d%d" % id(d), "type": t, "qual": d._verif_byte0 >> 5, "tr": tr, "fresh": fresh,
+        w.fault = 0
+        e = {"ev": "attach", "fault": fault, "dev": "d%d" % id(d), "type": t, "qual": d._verif_byte0 >> 5, "tr": tr, "fresh": fresh,
              "cdbs": [c for c in w.seen], "set": set_name(ec, d.opcodes), "primary": primary_ok(d.opcodes),
              "devtype": getattr(d, "_devicetype", -1) if exc == "" else -1, "exc": exc,
              "others": {"d%d" % id(o): set_name(ec, o.opcodes) for o in devs if o is not d}}
@@ -127,6 +135,10 @@ def run(chk, replay=None):
             devs = [w.device(tr, t, rng.randrange(8) if k % 3 == 0 else 0) for t in seq]
             facade = [None]
             for i, d in enumerate(devs):
+                if i and k % 4 in (1, 2):
+                    # the INQUIRY of a re-attach fails (UNIT ATTENTION / BUSY, on either transport): nothing is
+                    # selected, then the retry works
+                    attach(facade, d, devs, tr, False, fault=(2, 8)[(k // 4) % 2])
                 attach(facade, d, devs, tr, i == 0)
             # and back to the first one
             attach(facade, devs[0], devs, tr, False)
